@@ -38,3 +38,136 @@ theorem skkKana_in_dic_class (c : Nat) (h : skkKana c = true) :
   · have := Nat.eq_of_beq_eq_true h; subst this; decide +kernel
 
 end Chokan.Skk
+
+/-! ### a printer for SKK lines, and the round trip -/
+
+namespace Chokan.Skk
+open Chokan.Dic Chokan.DicText
+
+/-- a candidate as it is written in an SKK line: the word and, optionally, an annotation after `;` -/
+structure Written where
+  word : Str
+  annot : Option Str
+
+def printCand (w : Written) : Str :=
+  w.word ++ (match w.annot with | some a => 59 :: a | none => []) ++ [47]
+
+/-- `reading okuri blanks /cand/cand/…/` -/
+def printSkk (reading okuri sp : Str) (ws : List Written) : Str :=
+  reading ++ (okuri ++ (sp ++ 47 :: (ws.map printCand).flatten))
+
+structure WrittenOK (w : Written) : Prop where
+  ne : w.word ≠ []
+  chars : ∀ c ∈ w.word, isKanjiCh c = true
+  annot : ∀ a, w.annot = some a → ∀ c ∈ a, notSlash c = true
+
+theorem parseKanji_print (w : Written) (hw : WrittenOK w) (rest : Str) :
+    parseKanji (printCand w ++ rest) = some (w.word, rest) := by
+  unfold parseKanji printCand
+  obtain ⟨c, t, hct⟩ : ∃ c t, w.word = c :: t := by
+    cases h : w.word with
+    | nil => exact absurd h hw.ne
+    | cons c t => exact ⟨c, t, rfl⟩
+  cases ha : w.annot with
+  | none =>
+    have : spanClass isKanjiCh (w.word ++ [] ++ [47] ++ rest) = (w.word, 47 :: rest) := by
+      have := spanClass_append isKanjiCh w.word 47 rest hw.chars (by decide)
+      simpa using this
+    simp only [this]
+    rw [hct]
+    simp
+  | some a =>
+    have h1 : spanClass isKanjiCh (w.word ++ 59 :: a ++ [47] ++ rest) = (w.word, 59 :: (a ++ 47 :: rest)) := by
+      have := spanClass_append isKanjiCh w.word 59 (a ++ 47 :: rest) hw.chars (by decide)
+      simpa using this
+    have h2 : spanClass notSlash (a ++ 47 :: rest) = (a, 47 :: rest) :=
+      spanClass_append notSlash a 47 rest (hw.annot a ha) (by decide)
+    simp only [h1]
+    rw [hct]
+    simp only [h2]
+
+theorem parseKanjis_print : ∀ (ws : List Written) (fuel : Nat), (∀ w ∈ ws, WrittenOK w) → ws.length < fuel →
+    parseKanjis fuel (ws.map printCand).flatten = (ws.map (·.word), [])
+  | [], fuel, _, hf => by
+    cases fuel with
+    | zero => omega
+    | succ n => simp [parseKanjis, parseKanji, spanClass]
+  | w :: t, fuel, hok, hf => by
+    cases fuel with
+    | zero => simp at hf
+    | succ n =>
+      have ih := parseKanjis_print t n (fun x hx => hok x (List.mem_cons_of_mem _ hx)) (by simp at hf; omega)
+      simp only [List.map_cons, List.flatten_cons, parseKanjis]
+      rw [parseKanji_print w (hok w List.mem_cons_self)]
+      simp [ih]
+
+theorem alpha_not_kana (c : Nat) (h : isAlpha c = true) : skkKana c = false := by
+  simp only [isAlpha, Bool.and_eq_true, Nat.ble_eq] at h
+  cases hk : skkKana c with
+  | false => rfl
+  | true =>
+    simp only [skkKana, Bool.or_eq_true, Bool.and_eq_true, Nat.ble_eq] at hk
+    rcases hk with (hk | hk) | hk
+    · omega
+    · have := Nat.eq_of_beq_eq_true hk; omega
+    · have := Nat.eq_of_beq_eq_true hk; omega
+
+theorem printCand_len (w : Written) : 1 ≤ (printCand w).length := by
+  simp only [printCand, List.length_append, List.length_cons, List.length_nil]
+  omega
+
+theorem space_not_kana_alpha (c : Nat) (h : isSpace c = true) : skkKana c = false ∧ isAlpha c = false := by
+  simp only [isSpace, Bool.or_eq_true] at h
+  rcases h with h | h <;> (have := Nat.eq_of_beq_eq_true h; subst this; decide)
+
+/-- **The SKK line parser returns exactly what is written**: for a reading in the SKK kana class, an okuri of
+lower-case letters (or none), at least one blank and at least one candidate — each a non-empty word without blank, `/` or
+`;`, optionally followed by `;` and an annotation without `/` — the parser returns that reading, that okuri and those
+words in that order, annotations stripped. -/
+theorem parseSkk_print (reading okuri sp : Str) (ws : List Written)
+    (hr : reading ≠ []) (hrk : ∀ c ∈ reading, skkKana c = true) (hok : ∀ c ∈ okuri, isAlpha c = true)
+    (hs : sp ≠ []) (hsp : ∀ c ∈ sp, isSpace c = true) (hws : ws ≠ []) (hw : ∀ w ∈ ws, WrittenOK w) :
+    parseSkk (printSkk reading okuri sp ws) =
+      some ⟨reading, if okuri.isEmpty then none else some okuri, ws.map (·.word)⟩ := by
+  obtain ⟨s0, st, hsp0⟩ : ∃ s0 st, sp = s0 :: st := by
+    cases h : sp with
+    | nil => exact absurd h hs
+    | cons a b => exact ⟨a, b, rfl⟩
+  have hs0 := hsp s0 (by rw [hsp0]; exact List.mem_cons_self)
+  -- reading
+  have h1 : spanClass skkKana (printSkk reading okuri sp ws) = (reading, okuri ++ (sp ++ 47 :: (ws.map printCand).flatten)) := by
+    unfold printSkk
+    cases hok' : okuri with
+    | nil =>
+      rw [hsp0]
+      simpa using spanClass_append skkKana reading s0 (st ++ 47 :: (ws.map printCand).flatten) hrk (space_not_kana_alpha s0 hs0).1
+    | cons o ot =>
+      have := spanClass_append skkKana reading o (ot ++ (sp ++ 47 :: (ws.map printCand).flatten)) hrk
+        (alpha_not_kana o (hok o (by rw [hok']; exact List.mem_cons_self)))
+      simpa using this
+  -- okuri
+  have h2 : spanClass isAlpha (okuri ++ (sp ++ 47 :: (ws.map printCand).flatten)) = (okuri, sp ++ 47 :: (ws.map printCand).flatten) := by
+    rw [hsp0]
+    simpa using spanClass_append isAlpha okuri s0 (st ++ 47 :: (ws.map printCand).flatten) hok (space_not_kana_alpha s0 hs0).2
+  -- blanks
+  have h3 : spanClass isSpace (sp ++ 47 :: (ws.map printCand).flatten) = (sp, 47 :: (ws.map printCand).flatten) :=
+    spanClass_append isSpace sp 47 _ hsp (by decide)
+  have hlen : ws.length < (ws.map printCand).flatten.length + 1 := by
+    have : ∀ (l : List Written), l.length ≤ (l.map printCand).flatten.length := by
+      intro l
+      induction l with
+      | nil => simp
+      | cons a b ih =>
+        have := printCand_len a
+        simp only [List.map_cons, List.flatten_cons, List.length_append, List.length_cons]
+        omega
+    have := this ws; omega
+  have h4 := parseKanjis_print ws ((ws.map printCand).flatten.length + 1) hw hlen
+  unfold parseSkk
+  simp only [h1, h2, h3, h4]
+  have hre : reading.isEmpty = false := by cases reading <;> simp_all
+  have hse : sp.isEmpty = false := by rw [hsp0]; rfl
+  have hwe : (ws.map (·.word)).isEmpty = false := by cases ws <;> simp_all
+  simp [hre, hse, hwe]
+
+end Chokan.Skk
